@@ -117,7 +117,15 @@ def function_spans(text):
                 if tt[0] == 'p' and tt[1] in '([':
                     j = _skip(code, pairs, j)
                     continue
-                if tt[0] == 'p' and tt[1] in ('{', ';'):
+                if tt[0] == 'p' and tt[1] == ';':
+                    break
+                if tt[0] == 'p' and tt[1] == '{':
+                    # a `{` inside a contract clause (match / if expression) is followed by more clause text
+                    after = _skip(code, pairs, j)
+                    nxt = toks[code[after]][1] if after < len(code) else ''
+                    if nxt in (',', '&', '|', '=', '==>', '.', '?', 'as', '!', '+', '-', '*', '<', '>', '=>', ')', 'else'):
+                        j = after
+                        continue
                     break
                 j += 1
             endtok = pairs[code[j]] if toks[code[j]][1] == '{' else code[j]
@@ -181,7 +189,7 @@ def line_tags(text):
 
 def run_verus(path, modules, rlimit=None, seed=None, extra=None, timeout=3000):
     cmd = ['verus', path, '--output-json', '--time', '--triggers-mode', 'silent', '--multiple-errors', '24',
-           '--num-threads', '16']
+           '--num-threads', '16', '-V', 'spinoff-all']
     for m in modules:
         cmd += ['--verify-module', m]
     if rlimit:
@@ -308,6 +316,8 @@ def classify(res, text, linemap, units):
                 ftags.add('C02')
         elif not ftags:
             ftags = set(units.get(fn, {}).get('props', []))
+        if not ftags:
+            undecided.append('failure that no property claims (function %s, %s): treated as undecided' % (fn, msg))
         clause_text = '; '.join(lines[cl - 1].strip() for cl in clause_lines[:3])
         failures.append({'function': fn, 'message': msg, 'kind': kind, 'line': loc['line_start'],
                          'origin': linemap[loc['line_start'] - 1], 'clause': clause_text,
